@@ -129,6 +129,7 @@ CONTROL_SPECS = {
     "inner": lambda N: [(1, False), (1, True), (0, True)],
     # pre and post at step 0, pre at the last step (the state after the last propagator)
     "ends": lambda N: [(0, False), (0, True), (N, False)],
+    "inner_sparse": lambda N: [(1, False), (1, True), (0, True)],
     "ends_sparse": lambda N: [(0, False), (0, True), (1, True), (N, False)],
 }
 
@@ -388,11 +389,11 @@ class H4(Case):
 # --------------------------------------------------------------------------
 def cases(tier):
     cs = [
-        H1(1, 2, 2),
-        H1(1, 2, 1, controls="inner"),
-        H1(2, 2, 1, part="final"),
-        H1(2, 2, 1, part="nonfinal"),          # expected: known finding
-        H1(2, 2, 2, rank=3),                   # commuting (diagonal) MPO tensors: holds at every step
+        H1(1, 2, 2, som=True),
+        H1(1, 2, 2, controls="inner_sparse", som=True),
+        H1(2, 2, 1, part="final", som=True),
+        H1(2, 2, 1, part="nonfinal", som=True),          # expected: known finding
+        H1(2, 2, 2, rank=3, som=True),                   # commuting (diagonal) MPO tensors: holds at every step
         H2(2, 1), H2(2, 2),
         H3(1, 2, 2, 4, "inner"), H3(2, 2, 2, 4, "none"),
         H4(1, 2, 2),
@@ -401,12 +402,12 @@ def cases(tier):
         # two/three environments with rank-4 tensors and N = 3 (4^13 monomials per entry) are out of reach
         cs += [
             H1(1, 3, 2, timeout_s=900, som=True),
-            H1(1, 2, 2, controls="inner", timeout_s=900),
+            H1(1, 2, 2, controls="inner", timeout_s=900, som=True),
             H1(1, 3, 1, controls="ends_sparse", timeout_s=900, som=True),
-            H1(2, 2, 2, part="final", timeout_s=900),
-            H1(2, 2, 2, part="nonfinal", timeout_s=900),          # expected: known finding
+            H1(2, 2, 2, part="final", timeout_s=900, som=True),
+            H1(2, 2, 2, part="nonfinal", timeout_s=900, som=True),          # expected: known finding
             H1(3, 2, 1, part="final", timeout_s=900, som=True),
-            H1(2, 3, 2, rank=3, timeout_s=900),
+            H1(2, 3, 2, rank=3, timeout_s=900, som=True),
             H1(1, 2, 1, d=3, timeout_s=900, som=True),
             H2(3, 2), H3(2, 3, 2, 3, "ends"), H3(1, 3, 2, 4, "ends"), H4(2, 2, 1),
         ]
